@@ -198,7 +198,12 @@ C11_INST = {
               tl_inst(64, 40, 0.01, 2, 4, 1, random_only=True, random=(10, 400)),
               tl_inst(64, 100, 0.7, 2, 4, 1, random_only=True, random=(10, 60)),      # permissive false-positive ratio
               tl_inst(16, 12, 0.999, 1, 3, 1, random_only=True, random=(10, 60)),
-              tl_inst(1, 3, 0.01, 1, 2, 1, random_only=True, random=(10, 30))],
+              tl_inst(1, 3, 0.01, 1, 2, 1, random_only=True, random=(10, 30)),
+              # saturation: one key counted up to the 4-bit ceiling (15 + doorkeeper = 16) and through a reset, exhaustively,
+              # and two keys (one through the keyed API, one through the hashed-key API) on long histories
+              tl_inst(64, 36, 0.01, 1, 1, 1),
+              tl_inst(64, 1000, 0.01, 1, 2, 1, random_only=True, random=(12, 250)),
+              tl_inst(64, 60, 0.01, 2, 2, 1, random_only=True, random=(12, 250))],
     'thorough': [tl_inst(8, 4, 0.01, 2, 3, 2, random=(200, 200), extra_ops=EXTRA_TL),
                  tl_inst(3, 5, 0.999, 2, 4, 2, random=(200, 200)),
                  tl_inst(2, 1, 0.5, 1, 2, 1, random=(50, 50)), tl_inst(2, 2, 0.000000001, 2, 3, 2, random=(100, 100)),
@@ -206,7 +211,11 @@ C11_INST = {
                  tl_inst(64, 40, 0.01, 2, 5, 1, random_only=True, random=(100, 1500)),
                  tl_inst(64, 16, 0.01, 3, 6, 1, random_only=True, random=(100, 600)),
                  tl_inst(64, 100, 0.7, 2, 4, 1, random_only=True, random=(50, 200)), tl_inst(16, 12, 0.6, 1, 3, 1, random_only=True, random=(50, 100)),
-                 tl_inst(32, 50, 0.9, 2, 4, 1, random_only=True, random=(50, 200))],
+                 tl_inst(32, 50, 0.9, 2, 4, 1, random_only=True, random=(50, 200)),
+                 tl_inst(64, 36, 0.01, 1, 1, 1), tl_inst(64, 40, 0.01, 0, 1, 1),
+                 tl_inst(64, 1000, 0.01, 1, 2, 1, random_only=True, random=(100, 400)),
+                 tl_inst(64, 60, 0.01, 2, 2, 1, random_only=True, random=(100, 400)),
+                 tl_inst(256, 500, 0.01, 2, 3, 1, random_only=True, random=(50, 1500))],
 }
 
 
